@@ -42,6 +42,12 @@ pub enum OpKind {
     ThreadYield,
     CellRead,
     CellWrite,
+    /// `Arc::clone` / `Weak::upgrade` / `Arc::downgrade` (a change of a reference count upwards).
+    ArcClone,
+    /// Drop of an `Arc` or `Weak` handle.
+    ArcDrop,
+    /// A read of a reference count (`strong_count`, `weak_count`, `get_mut`, `try_unwrap`, ...).
+    ArcCount,
 }
 
 /// When a pending operation may be scheduled.
@@ -327,12 +333,14 @@ pub mod sync {
     use std::fmt;
     use std::ops::{Deref, DerefMut};
     use std::sync::atomic::{AtomicBool as StdAtomicBool, Ordering as StdOrdering};
-    use std::sync::Arc;
+    use std::sync::Arc as StdArc;
+
+    pub use self::arc::{Arc, Weak};
 
     /// `std::sync::Mutex` plus a flag telling a runtime whether it is held.
     #[derive(Default)]
     pub struct Mutex<T> {
-        held: Arc<StdAtomicBool>,
+        held: StdArc<StdAtomicBool>,
         inner: std::sync::Mutex<T>,
     }
 
@@ -346,13 +354,13 @@ pub mod sync {
     impl<T> Mutex<T> {
         pub fn new(t: T) -> Self {
             Mutex {
-                held: Arc::new(StdAtomicBool::new(false)),
+                held: StdArc::new(StdAtomicBool::new(false)),
                 inner: std::sync::Mutex::new(t),
             }
         }
 
         fn addr(&self) -> usize {
-            Arc::as_ptr(&self.held) as usize
+            StdArc::as_ptr(&self.held) as usize
         }
 
         fn wrap<'a>(&'a self, guard: std::sync::MutexGuard<'a, T>, go: Go) -> MutexGuard<'a, T> {
@@ -456,6 +464,298 @@ pub mod sync {
             done(go, OpKind::MutexUnlock, self.owner.addr(), None, true, loc);
             self.guard.take();
             self.owner.held.store(false, StdOrdering::SeqCst);
+        }
+    }
+    /// `std::sync::Arc` and `Weak` whose reference-count operations are reported.
+    ///
+    /// Unsized coercion (`Arc<T>` to `Arc<dyn Trait>`) of a wrapper type needs the
+    /// unstable `CoerceUnsized`, which is why the crate enables two feature gates
+    /// under `cfg(cadence_verif)` (and only there).
+    pub mod arc {
+        use super::super::{done, point, Location, OpKind, Wait};
+        use std::borrow::Borrow;
+        use std::fmt;
+        use std::marker::Unsize;
+        use std::ops::{CoerceUnsized, Deref};
+        use std::sync::atomic::Ordering;
+
+        pub struct Arc<T: ?Sized> {
+            inner: std::sync::Arc<T>,
+        }
+
+        pub struct Weak<T: ?Sized> {
+            inner: std::sync::Weak<T>,
+        }
+
+        impl<T: ?Sized + Unsize<U>, U: ?Sized> CoerceUnsized<Arc<U>> for Arc<T> {}
+        impl<T: ?Sized + Unsize<U>, U: ?Sized> CoerceUnsized<Weak<U>> for Weak<T> {}
+
+        thread_local! {
+            // set while a handle is exchanged for a `std` one (see `into_std`)
+            static QUIET: std::cell::Cell<bool> = const { std::cell::Cell::new(false) };
+        }
+
+        #[inline]
+        fn report(kind: OpKind, obj: usize, order: Ordering, loc: &'static Location<'static>) -> super::Go {
+            point(kind, obj, Some(order), Wait::No, loc)
+        }
+
+        impl<T> Arc<T> {
+            pub fn new(v: T) -> Self {
+                Arc {
+                    inner: std::sync::Arc::new(v),
+                }
+            }
+
+            /// The handle is exchanged for a plain `std` one without a reported drop;
+            /// no other operation is reported in between.
+            fn into_std(this: Self) -> std::sync::Arc<T> {
+                QUIET.with(|q| q.set(true));
+                let inner = this.inner.clone();
+                drop(this);
+                QUIET.with(|q| q.set(false));
+                inner
+            }
+
+            #[track_caller]
+            pub fn try_unwrap(this: Self) -> Result<T, Self> {
+                let loc = Location::caller();
+                let obj = Arc::addr(&this);
+                let go = report(OpKind::ArcCount, obj, Ordering::AcqRel, loc);
+                let r = std::sync::Arc::try_unwrap(Arc::into_std(this)).map_err(|inner| Arc { inner });
+                done(go, OpKind::ArcCount, obj, Some(Ordering::AcqRel), r.is_ok(), loc);
+                r
+            }
+
+            #[track_caller]
+            pub fn into_inner(this: Self) -> Option<T> {
+                let loc = Location::caller();
+                let obj = Arc::addr(&this);
+                let go = report(OpKind::ArcDrop, obj, Ordering::AcqRel, loc);
+                let r = std::sync::Arc::into_inner(Arc::into_std(this));
+                done(go, OpKind::ArcDrop, obj, Some(Ordering::AcqRel), r.is_some(), loc);
+                r
+            }
+        }
+
+        impl<T: ?Sized> Arc<T> {
+            fn addr(this: &Self) -> usize {
+                std::sync::Arc::as_ptr(&this.inner) as *const () as usize
+            }
+
+            pub fn as_ptr(this: &Self) -> *const T {
+                std::sync::Arc::as_ptr(&this.inner)
+            }
+
+            pub fn ptr_eq(this: &Self, other: &Self) -> bool {
+                std::sync::Arc::ptr_eq(&this.inner, &other.inner)
+            }
+
+            #[track_caller]
+            pub fn strong_count(this: &Self) -> usize {
+                let loc = Location::caller();
+                let obj = Arc::addr(this);
+                let go = report(OpKind::ArcCount, obj, Ordering::Relaxed, loc);
+                let n = std::sync::Arc::strong_count(&this.inner);
+                done(go, OpKind::ArcCount, obj, Some(Ordering::Relaxed), true, loc);
+                n
+            }
+
+            #[track_caller]
+            pub fn weak_count(this: &Self) -> usize {
+                let loc = Location::caller();
+                let obj = Arc::addr(this);
+                let go = report(OpKind::ArcCount, obj, Ordering::Relaxed, loc);
+                let n = std::sync::Arc::weak_count(&this.inner);
+                done(go, OpKind::ArcCount, obj, Some(Ordering::Relaxed), true, loc);
+                n
+            }
+
+            #[track_caller]
+            pub fn get_mut(this: &mut Self) -> Option<&mut T> {
+                let loc = Location::caller();
+                let obj = Arc::addr(this);
+                let go = report(OpKind::ArcCount, obj, Ordering::Acquire, loc);
+                let r = std::sync::Arc::get_mut(&mut this.inner);
+                done(go, OpKind::ArcCount, obj, Some(Ordering::Acquire), r.is_some(), loc);
+                r
+            }
+
+            #[track_caller]
+            pub fn downgrade(this: &Self) -> Weak<T> {
+                let loc = Location::caller();
+                let obj = Arc::addr(this);
+                let go = report(OpKind::ArcClone, obj, Ordering::Relaxed, loc);
+                let w = Weak {
+                    inner: std::sync::Arc::downgrade(&this.inner),
+                };
+                done(go, OpKind::ArcClone, obj, Some(Ordering::Relaxed), true, loc);
+                w
+            }
+        }
+
+        impl<T: ?Sized> Clone for Arc<T> {
+            #[track_caller]
+            fn clone(&self) -> Self {
+                let loc = Location::caller();
+                let obj = Arc::addr(self);
+                let go = report(OpKind::ArcClone, obj, Ordering::Relaxed, loc);
+                let c = Arc {
+                    inner: self.inner.clone(),
+                };
+                done(go, OpKind::ArcClone, obj, Some(Ordering::Relaxed), true, loc);
+                c
+            }
+        }
+
+        impl<T: ?Sized> Drop for Arc<T> {
+            fn drop(&mut self) {
+                // Reported before the count goes down (which happens when `inner`
+                // is dropped, right after this body). A release; the drop that
+                // frees the value also acquires, which is reported the same way.
+                if QUIET.with(|q| q.get()) {
+                    return;
+                }
+                let loc = Location::caller();
+                let obj = Arc::addr(self);
+                let go = report(OpKind::ArcDrop, obj, Ordering::AcqRel, loc);
+                done(go, OpKind::ArcDrop, obj, Some(Ordering::AcqRel), true, loc);
+            }
+        }
+
+        impl<T: ?Sized> Deref for Arc<T> {
+            type Target = T;
+
+            fn deref(&self) -> &T {
+                &self.inner
+            }
+        }
+
+        impl<T: ?Sized> AsRef<T> for Arc<T> {
+            fn as_ref(&self) -> &T {
+                &self.inner
+            }
+        }
+
+        impl<T: ?Sized> Borrow<T> for Arc<T> {
+            fn borrow(&self) -> &T {
+                &self.inner
+            }
+        }
+
+        impl<T: Default> Default for Arc<T> {
+            fn default() -> Self {
+                Arc::new(T::default())
+            }
+        }
+
+        impl<T> From<T> for Arc<T> {
+            fn from(v: T) -> Self {
+                Arc::new(v)
+            }
+        }
+
+        impl<T: ?Sized + fmt::Debug> fmt::Debug for Arc<T> {
+            fn fmt(&self, f: &mut fmt::Formatter<'_>) -> fmt::Result {
+                self.inner.fmt(f)
+            }
+        }
+
+        impl<T: ?Sized + fmt::Display> fmt::Display for Arc<T> {
+            fn fmt(&self, f: &mut fmt::Formatter<'_>) -> fmt::Result {
+                self.inner.fmt(f)
+            }
+        }
+
+        impl<T: ?Sized + PartialEq> PartialEq for Arc<T> {
+            fn eq(&self, other: &Self) -> bool {
+                self.inner == other.inner
+            }
+        }
+
+        impl<T: ?Sized + Eq> Eq for Arc<T> {}
+
+        impl<T> Weak<T> {
+            pub fn new() -> Self {
+                Weak {
+                    inner: std::sync::Weak::new(),
+                }
+            }
+        }
+
+        impl<T> Default for Weak<T> {
+            fn default() -> Self {
+                Weak::new()
+            }
+        }
+
+        impl<T: ?Sized> Weak<T> {
+            fn addr(&self) -> usize {
+                self.inner.as_ptr() as *const () as usize
+            }
+
+            #[track_caller]
+            pub fn upgrade(&self) -> Option<Arc<T>> {
+                let loc = Location::caller();
+                let obj = self.addr();
+                let go = report(OpKind::ArcClone, obj, Ordering::Acquire, loc);
+                let r = self.inner.upgrade().map(|inner| Arc { inner });
+                done(go, OpKind::ArcClone, obj, Some(Ordering::Acquire), r.is_some(), loc);
+                r
+            }
+
+            #[track_caller]
+            pub fn strong_count(&self) -> usize {
+                let loc = Location::caller();
+                let obj = self.addr();
+                let go = report(OpKind::ArcCount, obj, Ordering::Relaxed, loc);
+                let n = self.inner.strong_count();
+                done(go, OpKind::ArcCount, obj, Some(Ordering::Relaxed), true, loc);
+                n
+            }
+
+            #[track_caller]
+            pub fn weak_count(&self) -> usize {
+                let loc = Location::caller();
+                let obj = self.addr();
+                let go = report(OpKind::ArcCount, obj, Ordering::Relaxed, loc);
+                let n = self.inner.weak_count();
+                done(go, OpKind::ArcCount, obj, Some(Ordering::Relaxed), true, loc);
+                n
+            }
+
+            pub fn ptr_eq(&self, other: &Self) -> bool {
+                self.inner.ptr_eq(&other.inner)
+            }
+        }
+
+        impl<T: ?Sized> Clone for Weak<T> {
+            #[track_caller]
+            fn clone(&self) -> Self {
+                let loc = Location::caller();
+                let obj = self.addr();
+                let go = report(OpKind::ArcClone, obj, Ordering::Relaxed, loc);
+                let c = Weak {
+                    inner: self.inner.clone(),
+                };
+                done(go, OpKind::ArcClone, obj, Some(Ordering::Relaxed), true, loc);
+                c
+            }
+        }
+
+        impl<T: ?Sized> Drop for Weak<T> {
+            fn drop(&mut self) {
+                let loc = Location::caller();
+                let obj = self.addr();
+                let go = report(OpKind::ArcDrop, obj, Ordering::AcqRel, loc);
+                done(go, OpKind::ArcDrop, obj, Some(Ordering::AcqRel), true, loc);
+            }
+        }
+
+        impl<T: ?Sized> fmt::Debug for Weak<T> {
+            fn fmt(&self, f: &mut fmt::Formatter<'_>) -> fmt::Result {
+                write!(f, "(Weak)")
+            }
         }
     }
 }
